@@ -80,103 +80,6 @@ func C16(ctx *core.Ctx) {
 	ctx.Rule("C16.R6", "per-invocation storage: closures that run once per call write only slices they allocate themselves", 1)
 
 	// ---- R1 ---------------------------------------------------------------------
-	if cm := r.Fn("C16.R1", "composeMiddleware"); cm != nil {
-		ok := false
-		detail := "composeMiddleware is not the front-to-back fold h = m_i(h) over the whole slice starting from newInvocationHandler(method)"
-		var mwParam, methodParam *ssa.Parameter
-		for _, p := range cm.Params {
-			if _, isSl := p.Type().Underlying().(*types.Slice); isSl {
-				mwParam = p
-			} else {
-				methodParam = p
-			}
-		}
-		for ret, vs := range ReturnedValues(cm) {
-			_ = ret
-			phi, isPhi := vs[0].(*ssa.Phi)
-			if !isPhi || len(phi.Edges) != 2 {
-				continue
-			}
-			var init, step ssa.Value
-			for i, e := range phi.Edges {
-				if phi.Block().Dominates(phi.Block().Preds[i]) {
-					step = e
-				} else {
-					init = e
-				}
-			}
-			ic, isInit := CallValue(init)
-			sc, isStep := step.(*ssa.Call)
-			if !isInit || !isStep || ic.Static == nil || ic.Static.Name() != "newInvocationHandler" || ssax.Strip(ic.Common.Args[0]) != ssa.Value(methodParam) {
-				continue
-			}
-			// step = (*&middleware[idx])(phi)
-			if len(sc.Call.Args) != 1 || sc.Call.Args[0] != ssa.Value(phi) {
-				continue
-			}
-			ld, isLd := sc.Call.Value.(*ssa.UnOp)
-			if !isLd {
-				continue
-			}
-			ia, isIA := ld.X.(*ssa.IndexAddr)
-			if !isIA || ssax.Strip(ia.X) != ssa.Value(mwParam) {
-				continue
-			}
-			// index loop: i = φ(0, i+1), guard i < len(middleware)
-			if ip2, isP := ia.Index.(*ssa.Phi); isP {
-				zero, inc := false, false
-				for _, e := range ip2.Edges {
-					if k, isK := ssax.ConstInt(e); isK && k == 0 {
-						zero = true
-					} else if a2, isA := e.(*ssa.BinOp); isA && a2.Op == token.ADD && a2.X == ssa.Value(ip2) {
-						if o, isO := ssax.ConstInt(a2.Y); isO && o == 1 {
-							inc = true
-						}
-					}
-				}
-				guard := false
-				for _, u := range *ip2.Referrers() {
-					if bo, isB := u.(*ssa.BinOp); isB && bo.Op == token.LSS && bo.X == ssa.Value(ip2) {
-						if lc, isL := CallValue(bo.Y); isL && lc.FullName() == "builtin.len" && ssax.Strip(lc.Common.Args[0]) == ssa.Value(mwParam) {
-							guard = true
-						}
-					}
-				}
-				if zero && inc && guard {
-					ok = true
-				}
-				continue
-			}
-			// range loop: idx = φidx + 1, φidx = φ(-1, idx), guard idx < len(middleware)
-			add, isAdd := ia.Index.(*ssa.BinOp)
-			if !isAdd || add.Op != token.ADD {
-				continue
-			}
-			one, _ := ssax.ConstInt(add.Y)
-			ip, isIP := add.X.(*ssa.Phi)
-			if !isIP || one != 1 {
-				continue
-			}
-			startOK := false
-			for _, e := range ip.Edges {
-				if k, isK := ssax.ConstInt(e); isK && k == -1 {
-					startOK = true
-				}
-			}
-			guardOK := false
-			for _, u := range *add.Referrers() {
-				if bo, isB := u.(*ssa.BinOp); isB && bo.Op == token.LSS && bo.X == ssa.Value(add) {
-					if lc, isL := CallValue(bo.Y); isL && lc.FullName() == "builtin.len" && ssax.Strip(lc.Common.Args[0]) == ssa.Value(mwParam) {
-						guardOK = true
-					}
-				}
-			}
-			if startOK && guardOK {
-				ok = true
-			}
-		}
-		ctx.Check(ok, "C16.R1", "composeMiddleware › front-to-back fold h = m(h)", fnPos(r, cm), "handler = φ(newInvocationHandler(method), middleware[i](handler)), i = 0..len-1 ascending", detail+": the nesting order of middleware changes (later-listed no longer wraps earlier) or some are skipped")
-	}
 	if am := r.Fn("C16.R1", "(*Method).AddMiddleware"); am != nil {
 		ok := false
 		ssax.Instrs(am, func(in ssa.Instruction) {
@@ -221,23 +124,106 @@ func C16(ctx *core.Ctx) {
 		ctx.Check(n == 1 && mn == 1 && mx == 1 && okArgs && okRet, "C16.R1", "(*Method).Invoke › composed handler called exactly once with the caller's arguments", fnPos(r, inv), "return m.handler(m.proxiedStruct, m.proxiedMethod, args)", "Invoke does not call the composed handler exactly once with the caller's arguments and return its results")
 	}
 	if nm := r.Fn("C16.R1", "NewMethod"); nm != nil {
-		ok := false
 		var mw *ssa.Parameter
 		for _, p := range nm.Params {
 			if _, isSl := p.Type().Underlying().(*types.Slice); isSl {
 				mw = p
 			}
 		}
-		for _, c := range ssax.Calls(nm) {
-			if c.Static != nil && c.Static.Name() == "composeMiddleware" && mw != nil && ssax.Strip(c.Common.Args[1]) == ssa.Value(mw) {
-				for _, u := range *c.Instr.Value().Referrers() {
-					if st, isSt := u.(*ssa.Store); isSt && fieldNameOfAddr(st.Addr) == "handler" {
-						ok = true
+		// what NewMethod stores in the handler field of the Method it builds
+		var stored ssa.Value
+		var alloc ssa.Value
+		ssax.Instrs(nm, func(in ssa.Instruction) {
+			if st, isSt := in.(*ssa.Store); isSt && fieldNameOfAddr(st.Addr) == "handler" {
+				stored = st.Val
+				if fa, isFA := st.Addr.(*ssa.FieldAddr); isFA {
+					alloc = ssax.Strip(fa.X)
+				}
+			}
+		})
+		isBase := func(v ssa.Value, method ssa.Value) bool {
+			ic, ok := CallValue(v)
+			return ok && ic.Static != nil && ic.Static.Pkg == r.Pkg && ssax.TypeNamed(ic.Static.Signature.Results().At(0).Type(), "", "InvocationHandler") &&
+				len(ic.Common.Args) == 1 && (method == nil || ssax.Strip(ic.Common.Args[0]) == ssax.Strip(method))
+		}
+		// fold: h = φ(base(method), S[i](h)) with i ascending over the whole of S
+		foldOf := func(v ssa.Value, S ssa.Value, method ssa.Value) bool {
+			phi, isPhi := v.(*ssa.Phi)
+			if !isPhi || len(phi.Edges) != 2 {
+				return false
+			}
+			var init, step ssa.Value
+			for i, e := range phi.Edges {
+				if phi.Block().Dominates(phi.Block().Preds[i]) {
+					step = e
+				} else {
+					init = e
+				}
+			}
+			sc, isStep := step.(*ssa.Call)
+			if !isStep || !isBase(init, method) || len(sc.Call.Args) != 1 || sc.Call.Args[0] != ssa.Value(phi) {
+				return false
+			}
+			ld, isLd := sc.Call.Value.(*ssa.UnOp)
+			if !isLd {
+				return false
+			}
+			ia, isIA := ld.X.(*ssa.IndexAddr)
+			return isIA && ssax.Strip(ia.X) == S && ascendingWholeSlice(ia.Index, S)
+		}
+		ok, how := false, ""
+		detail := "NewMethod does not install the composed middleware chain"
+		switch {
+		case stored == nil || mw == nil:
+		case foldOf(stored, mw, nil):
+			ok, how = true, "handler = φ(base, middleware[i](handler)) folded in NewMethod itself"
+		default:
+			if c, isCall := CallValue(stored); isCall && c.Static != nil && c.Static.Pkg == r.Pkg && len(c.Static.Blocks) > 0 {
+				// (a) a fold helper that is handed the middleware slice
+				cm := c.Static
+				var S, method ssa.Value
+				for i, a := range c.Common.Args {
+					if ssax.Strip(a) == ssa.Value(mw) && i < len(cm.Params) {
+						S = cm.Params[i]
+					} else if i < len(cm.Params) {
+						method = cm.Params[i]
+					}
+				}
+				if S != nil {
+					for _, vs := range ReturnedValues(cm) {
+						if len(vs) == 1 && foldOf(vs[0], S, method) {
+							ok, how = true, "handler = "+cm.Name()+"(method, middleware): φ(base(method), middleware[i](handler)), i ascending over the whole slice"
+						}
+					}
+					if !ok {
+						detail = cm.Name() + " is not the front-to-back fold h = m_i(h) over the whole slice starting from the base handler: the nesting order of middleware changes (later-listed no longer wraps earlier) or some are skipped"
+					}
+				} else if isBase(stored, nil) && alloc != nil {
+					// (b) the Method is built around the base handler and every middleware is added in order
+					am := r.FnOpt("(*Method).AddMiddleware")
+					for _, c2 := range ssax.Calls(nm) {
+						if am == nil || c2.Static != am || len(c2.Common.Args) != 2 || ssax.Strip(c2.Common.Args[0]) != alloc {
+							continue
+						}
+						ld, isLd := ssax.Strip(c2.Common.Args[1]).(*ssa.UnOp)
+						if !isLd {
+							continue
+						}
+						ia, isIA := ld.X.(*ssa.IndexAddr)
+						if !isIA || ssax.Strip(ia.X) != ssa.Value(mw) || !ascendingWholeSlice(ia.Index, mw) {
+							continue
+						}
+						// on every trip: from the element load, no way back to it or out without the call
+						ci := c2.Instr.(ssa.Instruction)
+						again := func(in ssa.Instruction) bool { return in == ssa.Instruction(ld) || ssax.IsReturn(in) }
+						if ssax.Dominates(ld, ci) && ssax.PathFrom(nm, ld, again, func(in ssa.Instruction) bool { return in == ci }) == nil {
+							ok, how = true, "Method built around the base handler, then AddMiddleware(middleware[i]) for i ascending over the whole slice, on every trip"
+						}
 					}
 				}
 			}
 		}
-		ctx.Check(ok, "C16.R1", "NewMethod › handler = composeMiddleware(method, middleware)", fnPos(r, nm), "the Method's handler is the composition of the middleware it was given", "NewMethod does not install the composed middleware chain")
+		ctx.Check(ok, "C16.R1", "NewMethod › handler = composition of the middleware it was given, front to back", fnPos(r, nm), how, detail)
 	}
 
 	// ---- R4 ---------------------------------------------------------------------
@@ -411,7 +397,14 @@ func C16(ctx *core.Ctx) {
 
 	// ---- R6 ---------------------------------------------------------------------
 	if nih := r.Fn("C16.R6", "newInvocationHandler"); nih != nil {
-		for _, cl := range nih.AnonFuncs {
+		// the innermost handler: the closure(s) or the bound method newInvocationHandler returns
+		var bodies []*ssa.Function
+		for _, vs := range ReturnedValues(nih) {
+			for _, v := range vs {
+				bodies = append(bodies, funcValues(ssax.Strip(v))...)
+			}
+		}
+		for _, cl := range bodies {
 			bad := sharedMutableCaptures(cl)
 			// every IndexAddr store target / returned slice is a MakeSlice of this closure or a parameter
 			ssax.Instrs(cl, func(in ssa.Instruction) {
@@ -515,4 +508,55 @@ func sliceCopierParam(fn *ssa.Function) int {
 		idx = found
 	}
 	return idx
+}
+
+// ascendingWholeSlice: idx runs 0,1,…,len(S)-1 — the index of an index loop
+// (i = φ(0, i+1), guard i < len(S)) or of a range loop (idx = φidx+1, φidx =
+// φ(-1, idx), guard idx < len(S)).
+func ascendingWholeSlice(idx ssa.Value, S ssa.Value) bool {
+	lenOfS := func(v ssa.Value) bool {
+		lc, isL := CallValue(v)
+		return isL && lc.FullName() == "builtin.len" && ssax.Strip(lc.Common.Args[0]) == ssax.Strip(S)
+	}
+	if ip2, isP := idx.(*ssa.Phi); isP {
+		zero, inc := false, false
+		for _, e := range ip2.Edges {
+			if k, isK := ssax.ConstInt(e); isK && k == 0 {
+				zero = true
+			} else if a2, isA := e.(*ssa.BinOp); isA && a2.Op == token.ADD && a2.X == ssa.Value(ip2) {
+				if o, isO := ssax.ConstInt(a2.Y); isO && o == 1 {
+					inc = true
+				}
+			}
+		}
+		guard := false
+		for _, u := range *ip2.Referrers() {
+			if bo, isB := u.(*ssa.BinOp); isB && bo.Op == token.LSS && bo.X == ssa.Value(ip2) && lenOfS(bo.Y) {
+				guard = true
+			}
+		}
+		return zero && inc && guard && len(ip2.Edges) == 2
+	}
+	add, isAdd := idx.(*ssa.BinOp)
+	if !isAdd || add.Op != token.ADD {
+		return false
+	}
+	one, _ := ssax.ConstInt(add.Y)
+	ip, isIP := add.X.(*ssa.Phi)
+	if !isIP || one != 1 {
+		return false
+	}
+	startOK := false
+	for _, e := range ip.Edges {
+		if k, isK := ssax.ConstInt(e); isK && k == -1 {
+			startOK = true
+		}
+	}
+	guardOK := false
+	for _, u := range *add.Referrers() {
+		if bo, isB := u.(*ssa.BinOp); isB && bo.Op == token.LSS && bo.X == ssa.Value(add) && lenOfS(bo.Y) {
+			guardOK = true
+		}
+	}
+	return startOK && guardOK
 }
